@@ -261,10 +261,14 @@ type simReader struct {
 	zero    int                       // number of (0, nil) reads to inject
 	reads   int
 	maxPos  int
+	onRead  func(call int) // hook invoked at the start of every stream read (asynchronous events land here)
 }
 
 func (r *simReader) Read(b []byte) (int, error) {
 	r.reads++
+	if r.onRead != nil {
+		r.onRead(r.reads)
+	}
 	if len(b) == 0 {
 		return 0, nil
 	}
@@ -657,6 +661,51 @@ func (r *c38run) RunSeq(sched *simrt.Source, keepLog bool) *simrt.Result {
 			} else if d := same(m, r.msgs[i]); d != "" {
 				r.fail("oracle:message-differs", fmt.Sprintf("message %d after a cancelled Read: %s", i, d), "message read back differs")
 			}
+		}
+		// The context is cancelled WHILE a Read is in progress (cancellation is
+		// asynchronous: it lands between two reads of the stream, e.g. after the
+		// header arrived and before the body did). Whatever the reader does with
+		// it — ignore it (the unchanged code looks at the context on entry only)
+		// or give up with the context's error — the stream must stay in step:
+		// retrying with a live context yields every message, in order.
+		for rep := 0; rep < 3 && r.failure == nil; rep++ {
+			cctx, cancel := context.WithCancel(context.Background())
+			at := 1 + sched.Draw(3*len(r.msgs)+2)
+			split := seeded()
+			rd := &simReader{data: stream, endErr: io.EOF, chunk: func(avail, want int) int {
+				// small pieces, so that headers and bodies arrive by separate reads
+				if k := split(avail, want); k < want {
+					return k
+				}
+				return 1 + want/3
+			}}
+			rd.onRead = func(call int) {
+				if call == at {
+					cancel()
+					res.Faults["context-cancelled-mid-read"]++
+				}
+			}
+			fr := jsonrpc2.HeaderFramer().Reader(rd)
+			ctx := context.Context(cctx)
+			gaveUp := 0
+			for i := 0; i < len(r.msgs) && r.failure == nil; i++ {
+				m, _, err := fr.Read(ctx)
+				if err != nil && errors.Is(err, context.Canceled) && gaveUp < 2 {
+					gaveUp++
+					ctx = context.Background()
+					m, _, err = fr.Read(ctx)
+				}
+				if ctx.Err() != nil {
+					ctx = context.Background() // the cancellation was ignored by this Read; go on with a live context
+				}
+				r.cases++
+				if err != nil {
+					r.fail("oracle:message-count", fmt.Sprintf("context cancelled at stream read %d (reads given up: %d): message %d could not be read with a live context afterwards: %v", at, gaveUp, i, err), "wrong number of messages read back")
+				} else if d := same(m, r.msgs[i]); d != "" {
+					r.fail("oracle:message-differs", fmt.Sprintf("context cancelled at stream read %d (reads given up: %d): message %d: %s", at, gaveUp, i, d), "message read back differs")
+				}
+			}
+			cancel()
 		}
 	case 2:
 		r.malformed(sched, res, stream, ends, seeded)
